@@ -423,7 +423,7 @@ func c05Run(u *Unit) {
 			}()
 			runFor = 100 * time.Second
 		case "ro_fs":
-			_ = os.WriteFile(s.Dir+"/"+master+".ro", []byte("true"), 0o644)
+			s.SetROFS(master, true)
 		case "crash_recovered":
 			// the error log says crash recovery started after the (real) process start time the pid file points at
 			line := time.Now().AddDate(100, 0, 0).Format("2006-01-02T15:04:05.000000-07:00") + " 0 [Note] [MY-012551] [InnoDB] Starting crash recovery.\n"
